@@ -62,7 +62,8 @@ theorem cardLoop_err (ts : List Bool) (s : St) (e : Exc) (h : (cardLoop ts s).1 
 /-- exceptions that can leave a step; `V`: when a ValueError is possible -/
 def ErrPost (V : Prop) (e : Exc) (s' : St) : Prop :=
   e = .io 5 ∨ e = .keyboardInterrupt ∨ e = .unsupportedTarget ∨ (e = .value ∧ V) ∨
-  (e = .systemExit ∧ s'.log.getLast? = some (.call .llcRun .sysExit))
+  ((e = .systemExit ∧ s'.log.getLast? = some (.call .llcRun .sysExit)) ∨
+   (e = .type_ ∧ ∃ f, TypeErrTarget f ∧ s'.log.getLast? = some (.call .activate (.found f))))
 
 theorem ErrPost.dev {V : Prop} {e : Exc} {s' : St} (h : e = .io 5 ∨ e = .keyboardInterrupt) : ErrPost V e s' := by
   rcases h with h | h
@@ -97,11 +98,26 @@ theorem rdwrStep_err (o : RdwrOpts) (ts : List Bool) (s : St) (e : Exc) (h : (rd
       | false => simp [hdv] at h
       | true =>
         simp only [hdv, Bool.not_true, Bool.false_eq_true, if_false] at h ⊢
-        rcases hask : (s1.emit (.cb .rdwr .discover dv.code b1)).ask .activate with ⟨a, s3⟩
-        rw [hask] at h
-        simp only at h ⊢
+        have hT : HasT (s1.emit (.cb .rdwr .discover dv.code b1)) :=
+          ⟨id, sense_some_target _ _ _ _ _ hr⟩
+        have hact := (tagActivate_act f _ hT).2
+        rcases hta : tagActivate f (s1.emit (.cb .rdwr .discover dv.code b1)) with ⟨a, s3⟩
+        rw [hta] at h hact
         cases a with
-        | found f2 =>
+        | error e3 =>
+          simp only at h; cases h
+          rcases hact e rfl with hd | ⟨h1, h2, h3⟩
+          · rcases hd with hd | hd | hd
+            · exact Or.inl hd
+            · exact Or.inr (Or.inl hd)
+            · exact Or.inr (Or.inr (Or.inl hd))
+          · refine Or.inr (Or.inr (Or.inr (Or.inr (Or.inr ⟨h1, f, h2, ?_⟩))))
+            simp only at h3
+            rw [h3]; simp [List.getLast?_append]
+        | ok ot =>
+        cases ot with
+        | none => simp at h
+        | some tt =>
           simp only at h ⊢
           obtain ⟨b2, hc⟩ := Cb.run_eq o.connect .true_ .rdwr .connect s3
           rw [hc] at h ⊢
@@ -142,9 +158,6 @@ theorem rdwrStep_err (o : RdwrOpts) (ts : List Bool) (s : St) (e : Exc) (h : (rd
                   obtain ⟨b3, hrel⟩ := Cb.run_eq o.release .true_ .rdwr .release s7
                   rw [hrel] at h
                   simp at h
-        | ioError => simp only at h; cases h; exact Or.inl rfl
-        | kbd => simp only at h; cases h; exact Or.inr (Or.inl rfl)
-        | _ => simp at h
 
 theorem llcpRole_err (o : LlcpOpts) (ini : Bool) (ts : List Bool) (s : St) (e : Exc)
     (h : (llcpRole o ini ts s).1 = some (.error e)) : ErrPost False e (llcpRole o ini ts s).2.1 := by
@@ -171,7 +184,7 @@ theorem llcpRole_err (o : LlcpOpts) (ini : Bool) (ts : List Bool) (s : St) (e : 
       | kbd => simp only at h; cases h; exact Or.inr (Or.inl rfl)
       | sysExit =>
         simp only at h; cases h
-        refine Or.inr (Or.inr (Or.inr (Or.inr ⟨rfl, ?_⟩)))
+        refine Or.inr (Or.inr (Or.inr (Or.inr (Or.inl ⟨rfl, ?_⟩))))
         simp [List.getLast?_append]
       | _ => simp at h
   | ioError => simp only at h; cases h; exact Or.inl rfl
@@ -240,12 +253,12 @@ theorem cardStep_err (o : CardOpts) (ts : List Bool) (s : St) (e : Exc) (h : (ca
       | false => simp [hdv] at h
       | true =>
         simp only [hdv, Bool.not_true, Bool.false_eq_true, if_false] at h ⊢
-        rcases hask : (s1.emit (.cb .card .discover dv.code b1)).ask .emulate with ⟨a, s3⟩
-        rw [hask] at h
-        simp only at h ⊢
-        cases a with
-        | found f2 =>
-          simp only at h ⊢
+        obtain ⟨id, f⟩ := x
+        generalize hs3 : (s1.emit (.cb .card .discover dv.code b1)).emit (.call .emulate (.found f)) = s3 at *
+        cases hem : emulates o.target f with
+        | false => simp [hem] at h
+        | true =>
+          simp only [hem, Bool.not_true, Bool.false_eq_true, if_false] at h ⊢
           obtain ⟨b2, hc⟩ := Cb.run_eq o.connect .true_ .card .connect s3
           rw [hc] at h ⊢
           simp only at h ⊢
@@ -264,9 +277,6 @@ theorem cardStep_err (o : CardOpts) (ts : List Bool) (s : St) (e : Exc) (h : (ca
               obtain ⟨b3, hrel⟩ := Cb.run_eq o.release .true_ .card .release s6
               rw [hrel] at h
               simp at h
-        | ioError => simp only at h; cases h; exact Or.inl rfl
-        | kbd => simp only at h; cases h; exact Or.inr (Or.inl rfl)
-        | _ => simp at h
 
 theorem ErrPost.mono {V V' : Prop} {e : Exc} {s : St} (hv : V → V') (h : ErrPost V e s) : ErrPost V' e s := by
   rcases h with h | h | h | ⟨h, v⟩ | h
@@ -423,7 +433,9 @@ theorem startupPhase_live (o : Opts) (s0 : St) :
 theorem connect_raised (o : Opts) (env : List Ans) (ts : List Bool) (e : Exc)
     (h : (connect o env ts).1 = .raised e) :
     (e = .type_ ∧ NonIterableStartup o) ∨ (e = .value ∧ OptsV o) ∨
-    (e = .systemExit ∧ (connect o env ts).2.log.getLast? = some (.call .llcRun .sysExit)) := by
+    (e = .systemExit ∧ (connect o env ts).2.log.getLast? = some (.call .llcRun .sysExit)) ∨
+    (e = .type_ ∧ ∃ f, TypeErrTarget f ∧
+      (connect o env ts).2.log.getLast? = some (.call .activate (.found f))) := by
   obtain ⟨⟨k, hk⟩, _⟩ := startupPhase_mon o env
   obtain ⟨hlive, herr⟩ := startupPhase_live o (St.init env)
   unfold connect at h ⊢
